@@ -973,6 +973,12 @@ func (w *World) runCall(t *core.Task, o *CallObs) {
 				cancel()
 			}
 		}
+		if p.Abandon && o.CancelStep >= 0 {
+			// the program finished by cancelling its context: nothing more is
+			// called on the stream, and nothing may be left behind
+			w.setFinal(o, context.Canceled)
+			break
+		}
 		w.opGate(o, "closeandreceive")
 		t.SetWhere(p.ID + " CloseAndReceive")
 		r := OpRec{Op: "closeandreceive", Start: stepsNow(w.S), StartT: time.Now()}
